@@ -25,6 +25,9 @@ func init() {
 	reg1("C07Pair", SetupC07Pair, HarnessC07Pair)
 	reg1("C08Tsr", SetupC08Tsr, HarnessC08Tsr)
 	reg1("C11Serve", SetupC11Serve, HarnessC11Serve)
+	reg1("C14Seq", SetupC14Seq, HarnessC14Seq)
+	reg1("C14AB", SetupC14AB, HarnessC14AB)
+	reg1("C14Caps", SetupC14Caps, HarnessC14Caps)
 	reg1("C16Alloc", SetupC16Alloc, HarnessC16Alloc)
 	reg1("C09Host", SetupC09Host, HarnessC09Host)
 	reg1("C10Parse", SetupC10Parse, HarnessC10Parse)
